@@ -44,14 +44,16 @@ type world struct {
 	contentBytes map[string]string
 	txSeq        uint64
 	// reference ledgers
-	ledger       *ledger
-	past         map[uint64]*pastCommittee
-	halted       bool
-	dex          *dexWorld
-	slash        *slashWorld
-	lastBlockTxs [][]byte
-	lastNonce    map[string]uint64
-	cur          *node // node whose process the simulator is currently "inside"
+	ledger        *ledger
+	past          map[uint64]*pastCommittee
+	halted        bool
+	dex           *dexWorld
+	slash         *slashWorld
+	lastBlockTxs  [][]byte
+	lastNonce     map[string]uint64
+	daoMint       map[string]uint64 // DAO transfers that mint: tx bytes -> amount
+	mintedInBlock uint64
+	cur           *node // node whose process the simulator is currently "inside"
 }
 
 type chainRec struct {
@@ -149,7 +151,7 @@ func (w *world) buildGenesis(nVals int) {
 	stakes := []uint64{1_000_000, 1_000_000, 2_000_000, 500_000, 1_000_000, 3, 1_000_000}
 	if (c.Prop == "C02" || c.Prop == "C13") && t.Chance(1, 2) {
 		// tiny weighted stakes: subsets whose power is exactly one short of floor(2T/3)+1 exist
-		stakes = []uint64{1, 2, 3, 2, 1, 3, 1}
+		stakes = [][]uint64{{1, 2, 3, 2, 1, 3, 1}, {7, 1, 1, 1, 7, 1, 1}, {1, 1, 9, 1, 1, 1, 1}}[t.Pick(2, 1, 1)]
 		p.Validator.MinimumStakeForValidators = 0
 		c.Probe("genesis_tiny_weighted_stakes")
 	}
